@@ -22,12 +22,16 @@ def gen(c, binary):
 def run(c):
     c.rule = ("each case is one source text: 70% from a typed generator that writes surface syntax directly (depth <= 6, every "
               "operator, aggregate and function, matching modifiers, @/offset modifiers, subqueries, StatsHouse extensions "
-              "`offset [..]`, `@what=`, `tag:$var`, keywords as metric and label names, varied spacing/case/quoting, "
+              "`offset [..]`, `@what=`, `tag:$var`, keywords as metric and label names, varied spacing/case/quoting, string literals / "
+              "matcher values / function string arguments in all three quote styles with control bytes, DEL, non-printable and "
+              "astral runes and invalid UTF-8 given raw at the start, middle and END of the string (what %q prints as a numeric escape), "
               "un-parenthesised operator chains), 15% a valid source with 1-2 token mutations, 15% arbitrary strings "
               "(random bytes, PromQL alphabet, token soup, deep nesting, unterminated constructs). Ops: real ParseExpr on the "
               "text vs model parser on its tokens; real String() (lexed) vs model printer; real ParseExpr on the printed text "
               "vs model. non-trivial = accepted AND (a binary/unary directly under a binary/unary, i.e. precedence decided "
-              "the grouping, or a modifier, subquery, matching clause or StatsHouse extension); distinct by op-sequence hash")
+              "the grouping, or a modifier, subquery, matching clause, StatsHouse extension, or a string value whose last character "
+              "the printer escapes); rejected and accepted sources are interleaved in one process, so the pooled parser is "
+              "reused after failed parses; distinct by op-sequence hash")
     c.assumptions += [
         "lexing is not modelled: the model works on the token sequence the real lexer produced (number values, unquoted strings, "
         "durations in seconds, regexp validity are carried in the tokens); the lexical round trip of numbers/strings/durations "
